@@ -148,7 +148,7 @@ theorem LInv_finish_stop {sh : Shared} {it : Iter} (zs : List Int) (hsrc : sh.sr
   refine ⟨hc, ?_, ?_, ?_⟩
   · simp only []; rw [hsrc]; exact List.prefix_append _ _
   · intro hq; simp only [] at hq; rw [hq] at hst; simp [stops] at hst
-  · intro hsorted; simp only []; rw [answer_stop hsrc hst hsorted]
+  · intro hsorted hq; simp only []; rw [answer_stop hsrc hst hsorted hq]
 
 theorem LInv_finish_all {sh : Shared} {it : Iter} (hy : it.yielded = sh.src) (he : Exh sh)
     (hc : it.crash = none) : LInv sh (finish sh it) := by
@@ -156,7 +156,7 @@ theorem LInv_finish_all {sh : Shared} {it : Iter} (hy : it.yielded = sh.src) (he
   refine ⟨hc, ?_, ?_, ?_⟩
   · simp only []; rw [hy]; exact List.prefix_refl _
   · intro _; exact hy
-  · intro hsorted; simp only []; rw [hy, answer_all he hsorted]
+  · intro hsorted hq; simp only []; rw [hy, answer_all he hsorted hq]
 
 /-- a `yield` of `src[k]` to a consumer that has received `src.take k` -/
 theorem LInv_receive {sh : Shared} {it : Iter} {k : Nat} {x : Int} {next : PC}
@@ -203,8 +203,8 @@ theorem stepIter_linv {sh sh' : Shared} {t : Tid} {it it' : Iter}
       refine ⟨hc, ?_, ?_, ?_⟩
       · simp only []; rw [hy]; exact List.nil_prefix
       · intro hq'; simp only [] at hq'; rw [hq'] at hq; simp [hasEntryCheck] at hq
-      · intro hsorted
-        simp only []
+      · intro hsorted hsm
+        simp only [] at hsm ⊢
         cases hq' : it.q with
         | count =>
           rw [hq'] at hk
@@ -218,7 +218,7 @@ theorem stepIter_linv {sh sh' : Shared} {t : Tid} {it it' : Iter}
           rw [hq'] at hk
           simp only [entryKnown] at hk
           simp only [entryRes, hs.exh_cache (e2 hk)]
-          rw [fast_eq_spec _ _ hsorted]
+          rw [fast_eq_spec _ _ hsorted (by simpa [hq'] using hsm)]
     · unfold LInv; exact ⟨hc, hy, hr⟩
   · -- l107
     simp only [Option.some.injEq, Prod.mk.injEq] at h
